@@ -324,7 +324,10 @@ def load_results():
         pid = fn[:-6]
         meta, recs = None, {}
         for l in open(os.path.join(OUT, fn)):
-            j = json.loads(l)
+            try:
+                j = json.loads(l)
+            except ValueError:
+                continue   # a line being written by a running sweep
             if j.get("meta"):
                 meta = j
             else:
